@@ -327,7 +327,7 @@ Proof.
     assert (H2 : 2 <> 0) by lia.
     pose proof (N.mod_lt e 2 H2). pose proof (N.mod_lt (N.succ e) 2 H2).
     pose proof (N.div_mod e 2 H2). pose proof (N.div_mod (N.succ e) 2 H2).
-    destruct (N.eqb_spec (e mod 2) 0), (N.eqb_spec (N.succ e mod 2) 0).
+    destruct (N.eqb_spec (e mod 2) 0), (N.eqb_spec (N.succ e mod 2) 0); try (compute; reflexivity); exfalso; clear IH; lia.
 Qed.
 
 Lemma sq_pow : forall s e, (Qpower (sq s) (Z.of_N e) ==
